@@ -1241,7 +1241,7 @@ def wrapper_resize_boundary(ctx, d):
 
 def label_sequence_case(rng):
     h, w = rng.randint(2, NEAR_MAX), rng.randint(2, NEAR_MAX)
-    L = rng.randint(2, 4)
+    L = rng.randint(2, 5)
     label_values = sorted(rng.sample(range(0, 40), L))
     # fine structure: 1-px stripes / checkerboard / random, so that a down-sampled copy differs from the original
     kind = rng.choice(["stripes", "checker", "random"])
@@ -1269,18 +1269,22 @@ def run_label_sequence(d, lab, shapes, sc, of, sigs=None):
         out = call(m, sig.copy())
         if isinstance(out, Raised) or np.asarray(out).shape != tuple(shp):
             return {"step": i, "shape": list(shp), "what": f"call raises / wrong shape: {out!r}"[:160]}
-        if tuple(shp) == laba.shape:
+        if True:
+            # the labelled regions of this call: the original map, or its nearest-neighbour resize to the signal's shape
+            import cv2
+
+            laba_here = laba if tuple(shp) == laba.shape else cv2.resize(laba, (shp[1], shp[0]), interpolation=cv2.INTER_NEAREST)
             want = np.zeros(shp)
             for li, l in enumerate(uniq):
                 hom = call(d.LinearModel(scaling=float(sc[li]), offset=float(of[li])), sig.copy())
                 if isinstance(hom, Raised):
                     return {"step": i, "shape": list(shp), "what": f"the homogeneous LinearModel of label {int(l)} raises {hom!r}"}
-                want[laba == l] = hom[laba == l]
+                want[laba_here == l] = hom[laba_here == l]
             if not np.array_equal(out, want):
                 bad = np.argwhere(np.asarray(out) != want)[0].tolist()
-                return {"step": i, "shape": list(shp), "what": "at the resolution of the label map the label-wise model differs from the homogeneous model of the label "
-                        "on its region (after earlier calls at other resolutions)", "pixel": bad, "observed": float(np.asarray(out)[tuple(bad)]),
-                        "required": float(want[tuple(bad)]), "label": int(laba[tuple(bad)])}
+                return {"step": i, "shape": list(shp), "what": "the label-wise model differs from the homogeneous model of the label on its region of the label map in force "
+                        "(the original map, or its nearest-neighbour resize to the signal's shape)", "pixel": bad, "observed": float(np.asarray(out)[tuple(bad)]),
+                        "required": float(want[tuple(bad)]), "label": int(laba_here[tuple(bad)])}
     return None
 
 
@@ -1540,6 +1544,68 @@ def oracle_wrapper_kernel(ctx, d):
                      {"labels": lab.tolist(), "kernel": kname, **bad})
 
 
+def combined_args_correspondence(ctx, d):
+    """CombinedModel.__call__(img, *args): sub-models whose __call__ takes a further argument (StaticThresholdModel: mask) get it, the
+    parameter models do not; with and without the extra argument; thresholding followed by further models (boolean arrays)."""
+    rng = ctx.rng
+    lines, impl = [], []
+    for t in range(ctx.pick(60, 500)):
+        L = rng.randint(1, 4)
+        shape = (rng.randint(1, 3), rng.randint(2, 4))
+        while shape[0] * shape[1] < L:
+            shape = (shape[0] + 1, shape[1])
+        npx = shape[0] * shape[1]
+        labs = list(range(L)) + [rng.randrange(L) for _ in range(npx - L)]
+        rng.shuffle(labs)
+        label_values = sorted(rng.sample(range(0, 40), L))
+        lab = np.array([label_values[l] for l in labs]).reshape(shape)
+        dt = rng.choice(["f64", "f64", "f32", "u8"])
+        vals = [gen_value(rng, dt) if dt != "u8" else Fraction(rng.randint(0, 4)) for _ in range(npx)]
+        sig = np.array([float(v) for v in vals]).reshape(shape).astype(NP_OF[dt])
+        stages, objs = [], []
+        n_st = rng.randint(1, 3)
+        for k in range(n_st):
+            r = rng.random()
+            if r < 0.45:
+                lo = rng.choice([dy(rng, 0, 8, 16), rng.choice(vals)])
+                hi = rng.choice([None, lo + dy(rng, 0, 16, 16)])
+                rf = rng.random() < 0.3
+                stages.append(f"thrh {fmt(lo)} {'none' if hi is None else fmt(hi)} {1 if rf else 0}")
+                objs.append(call(d.StaticThresholdModel, float(lo), None if hi is None else float(hi), None, rf))
+            elif r < 0.6:
+                lo = [dy(rng, 0, 8, 16) for _ in range(L)]
+                hi = None if rng.random() < 0.4 else [x + dy(rng, 0, 16, 16) for x in lo]
+                rf = rng.random() < 0.3
+                stages.append(f"thrt {L} {fmts(lo)} " + ("none" if hi is None else "some " + fmts(hi)) + (" 1" if rf else " 0"))
+                objs.append(call(d.StaticThresholdModel, [float(x) for x in lo], None if hi is None else [float(x) for x in hi], lab, rf))
+            else:
+                m = f32_safe(rng, gen_models(rng, 1, L, near_one=False))[0]
+                stages.append(tok_model(m))
+                objs.append(call(build, d, m, lab))
+        mask = None if rng.random() < 0.4 else [rng.random() < 0.6 for _ in range(npx)]
+        lines.append(f"runargs {dt} {n_st} " + " ".join(stages) + " | " + ("nomask" if mask is None else "mask " + " ".join("1" if b else "0" for b in mask))
+                     + f" | {npx} " + " ".join(f"{label_values[l]} {fmt(v)}" for l, v in zip(labs, vals)))
+        if any(isinstance(o, Raised) for o in objs):
+            impl.append("!construct")
+            continue
+        comb = d.CombinedModel(objs)
+        out = call(comb, sig.copy()) if mask is None else call(comb, sig.copy(), np.array(mask).reshape(shape))
+        impl.append(repr(out) if isinstance(out, Raised) else ("!shape" if np.asarray(out).shape != shape else dtok(out) + " " + fmts(np.asarray(out, dtype=float).ravel())))
+        # the property on the implementation: the combination is its parts applied in order, each part called the way it is called alone
+        # (a threshold part with the mask, a parameter model without)
+        seq = sig.copy()
+        for o in objs:
+            seq = call(o, seq, np.array(mask).reshape(shape)) if isinstance(o, d.StaticThresholdModel) and mask is not None else call(o, seq)
+            if isinstance(seq, Raised):
+                break
+        ctx.count(("combined-args", lines[-1]))
+        if isinstance(seq, Raised) != isinstance(out, Raised) or (not isinstance(seq, Raised) and not np.array_equal(np.asarray(out), np.asarray(seq))):
+            ctx.fail("C14:CombinedModel.__call__(img, *args):composition", "CombinedModel(parts)(signal, mask) differs from applying the parts in order "
+                     "(threshold parts with the mask, parameter models without)",
+                     {"line": lines[-1], "observed": impl[-1][:200], "required": repr(seq) if isinstance(seq, Raised) else dtok(seq) + " " + fmts(np.asarray(seq, dtype=float).ravel())[:200]})
+    ctx.correspond("combined-call-with-extra-arguments", lines, impl)
+
+
 def oracle_kernel(ctx, d):
     rng = np.random.default_rng(ctx.rng.randrange(2**31))
     worst_rep, worst_numba = 0.0, 0.0
@@ -1726,6 +1792,7 @@ def run(ctx):
     ctx.correspond("poly-exponents", pl, pi)
 
     wrapper_resize_boundary(ctx, d)
+    combined_args_correspondence(ctx, d)
     oracle_poly(ctx, d, poly, sizes)
     oracle_models(ctx, d)
     oracle_threshold(ctx, d, thr)
